@@ -68,13 +68,43 @@ def expr_paths(prog, kind):
 _CACHE: dict = {}
 
 
+def _indexed_write(v, seen=None, depth=0):
+    """Does the described value contain an element written by a symbolic index (`lst[i] = ...` in a
+    loop)?  Such a list is not described element by element any more (and may contain itself)."""
+    seen = set() if seen is None else seen
+    if id(v) in seen or depth > 40:
+        return False
+    seen.add(id(v))
+    if isinstance(v, TNode):
+        if v.kind == "$SetItem":
+            return True
+        return any(_indexed_write(x, seen, depth + 1) for x in v.fields.values())
+    items = getattr(v, "items", None)
+    if isinstance(items, list):
+        return any(_indexed_write(x, seen, depth + 1) for x in items)
+    inner = getattr(v, "inner", None)
+    if inner is not None:
+        return _indexed_write(inner, seen, depth + 1)
+    return False
+
+
 def all_expr_paths(ctx):
     key = id(ctx.prog)
     if key not in _CACHE:
         out = {}
-        for kind in list(asdl.EXPR_KINDS) + ["comprehension", "keyword"]:
-            out[kind] = list(expr_paths(ctx.prog, kind))
+        try:
+            for kind in list(asdl.EXPR_KINDS) + ["comprehension", "keyword"]:
+                out[kind] = list(expr_paths(ctx.prog, kind))
+                for pr in out[kind]:
+                    if pr.outcome == "ok" and _indexed_write(pr.result):
+                        raise AnalysisError(
+                            f"the expression handler of {kind} writes list elements through an index inside a loop: the rebuilt "
+                            "expression is not described element by element, nothing is concluded about the expression rewriter")
+        except AnalysisError as e:
+            out = e
         _CACHE[key] = out
+    if isinstance(_CACHE[key], AnalysisError):
+        raise AnalysisError(str(_CACHE[key]))
     return _CACHE[key]
 
 
